@@ -167,6 +167,12 @@ def install(eng):
         ety = ty_args(norm_ty(ctx.dest_ty))[0] if ctx.dest_ty and ty_args(norm_ty(ctx.dest_ty)) else None
         return ConcSeq(ety, [])
     m(r'^(std::vec::|alloc::vec::)?Vec::new$', m_vec_new)
+    m(r'^<(std::vec::|alloc::vec::)?Vec as (std::default::|core::default::)?Default>::default$', m_vec_new)
+    def m_int_default(eng, args, ctx):
+        t = re.match(r'^<(\w+) as', ctx.norm).group(1)
+        return bv(0, INT_BITS[t])
+    m(r'^<([iu]\d+|[iu]size) as (std::default::|core::default::)?Default>::default$', m_int_default)
+    m(r'^<bool as (std::default::|core::default::)?Default>::default$', lambda e, a, c: False)
     m(r'^(std::vec::|alloc::vec::)?Vec::with_capacity$', m_vec_new)
     # slice iterators -------------------------------------------------
     class SliceIter:
@@ -340,6 +346,16 @@ def install(eng):
         v = payload0(eng, e, 'Some')
         return opt(eng, oty, eng.call_value(ctx.frame, f, [v]))
     m(r'^(std::option::|core::option::)?Option::map$', m_opt_map)
+
+    def m_res_map(eng, args, ctx):
+        r, f = args
+        ed = eng.P.enum_def('Result')
+        oty = norm_ty(ctx.dest_ty) if ctx.dest_ty else 'Result'
+        if variant_is(eng, r, 1):
+            return EnumV(oty, 1, {'Err': {0: Cell(payload0(eng, r, 'Err'))}}, None, ed)
+        v = payload0(eng, r, 'Ok')
+        return EnumV(oty, 0, {'Ok': {0: Cell(eng.call_value(ctx.frame, f, [v]))}}, None, ed)
+    m(r'^(std::result::|core::result::)?Result::map$', m_res_map)
     def m_opt_and_then(eng, args, ctx):
         e, f = args
         oty = norm_ty(ctx.dest_ty) if ctx.dest_ty else 'Option'
@@ -416,6 +432,21 @@ def install(eng):
         s_.arr = z3.K(z3.BitVecSort(64), term)
         return s_
     m(r'^(std|alloc)::vec::from_elem$', m_from_elem)
+
+    def m_vec_resize(eng, args, ctx):
+        v = vec_of(args[0], eng)
+        n, x = args[1], args[2]
+        if not isinstance(v, SymSeq):
+            raise Unsupported('Vec::resize on ' + type(v).__name__)
+        so = v.arr.sort().range()
+        term = x if v.scalar_sort is not None else eng.elem_term(x, so, v.tyname)
+        eng.fresh_n += 1
+        i = z3.BitVec(f'i!rs{eng.fresh_n}', 64)
+        old, oldlen = v.arr, v.len
+        v.arr = z3.Lambda([i], z3.If(z3.ULT(i, oldlen), z3.Select(old, i), term))
+        v.len = n
+        return UNIT
+    m(r'^(std::vec::|alloc::vec::)?Vec::resize$', m_vec_resize)
 
     def m_opt_replace(eng, args, ctx):
         c = args[0].cell
@@ -528,6 +559,7 @@ def install(eng):
     m(r'^(std::mem::|core::mem::)align_of$', m_align_of)
     # ---------------------------------------------------------------- bumpalo vectors (same model as Vec)
     m(r'^bumpalo::collections::Vec::push$', m_vec_push)
+    m(r'^bumpalo::collections::Vec::(new_in|with_capacity_in)$', m_vec_new)
     m(r'^bumpalo::collections::Vec::pop$', m_vec_pop)
     m(r'^bumpalo::collections::Vec::is_empty$', lambda e, a, c: as_bool(z3.simplify(seq_len(e, vec_of(a[0], e)) == 0)))
 
@@ -757,6 +789,36 @@ def install(eng):
             if n > 64:
                 raise PathEnd('unwind', 'for_each')
     m(r'^<.* as (std::iter::|core::iter::)?Iterator>::for_each$', m_for_each, fallback=True)
+
+    def _it_scan(eng, args, ctx, kind):
+        it, f = args
+        if isinstance(it, Ref):
+            it = it.cell.get(eng)
+        n = 0
+        while True:
+            v = it_next(eng, it, ctx.frame)
+            if v is None:
+                break
+            r = eng.call_value(ctx.frame, f, [v] if kind != 'find' else [Ref(Cell(v))])
+            hit = eng.fork_bool(to_z3_bool(r))
+            if kind == 'all':
+                hit = not hit
+            if hit:
+                if kind == 'position':
+                    return opt(eng, 'Option<usize>', bv(n, 64))
+                if kind == 'find':
+                    return opt(eng, norm_ty(ctx.dest_ty) if ctx.dest_ty else 'Option', v)
+                return kind == 'any'
+            n += 1
+            if n > 64:
+                raise PathEnd('unwind', kind)
+        if kind == 'position':
+            return opt(eng, 'Option<usize>')
+        if kind == 'find':
+            return opt(eng, norm_ty(ctx.dest_ty) if ctx.dest_ty else 'Option')
+        return kind == 'all'
+    for _k in ('position', 'any', 'all', 'find'):
+        m(r'^<.* as (std::iter::|core::iter::)?Iterator>::' + _k + '$', (lambda k: lambda e, a, c: _it_scan(e, a, c, k))(_k), fallback=True)
 
     def m_map_retain(eng, args, ctx):
         m_, f = mp(eng, args[0]), args[1]
